@@ -565,6 +565,15 @@ class Interp:
             # opaque fallback: every local this statement may define or modify becomes a named unknown
             for (vid, name, ty) in mutated_locals(s):
                 self.opaque_counter += 1
+                # a local that is a &mut reference: what it points to is what may have changed
+                try:
+                    cur = env.get(vid) if env.lookup(vid) else None
+                except Undecided:
+                    cur = None
+                if isinstance(cur, PlaceRef) and env.lookup(cur.var) is not None:
+                    tname = self.var_names.get(cur.var, str(cur.var))
+                    env.set(cur.var, Opaque(tname))
+                    continue
                 ov = opaque_by_type(ty, "%s" % name, self.types)
                 env.set(vid, ov) if env.lookup(vid) else env.define(vid, ov)
 
